@@ -90,11 +90,37 @@ def keys_of(cs):
 
 def run_window(cs):
     n = cs['n']
-    s = sf.Series(np.arange(n), index=['L%d' % i for i in range(n)])
+    labels = ['L%d' % i for i in range(n)]
+    kw = dict(size=cs['size'], step=cs['step'], start_shift=cs['start_shift'], label_shift=cs['label_shift'], size_increment=cs['size_increment'], window_sized=cs['window_sized'])
+    route = cs.get('route', 'series_items')
+    # the same windows through every iterator form: items / values-only / arrays, on a Series and along either axis of a Frame (the
+    # values-only forms carry no label: it is taken from the items form, the window itself from the form under test)
+    if route.startswith('series'):
+        s = sf.Series(np.arange(n), index=labels)
+        items = list(s.iter_window_items(**kw))
+        if route == 'series_items':
+            pairs = items
+        elif route == 'series_values':
+            pairs = list(zip([k for k, _ in items], s.iter_window(**kw)))
+        else:
+            pairs = list(zip([k for k, _ in items], s.iter_window_array(**kw)))
+    else:
+        axis = 0 if 'axis0' in route else 1
+        data = np.stack((np.arange(n), np.arange(n)), axis=1) if axis == 0 else np.stack((np.arange(n), np.arange(n)), axis=0)
+        f = (sf.FrameGO if 'go' in route else sf.Frame)(data, index=labels if axis == 0 else ('r0', 'r1'), columns=('c0', 'c1') if axis == 0 else labels)
+        items = list(f.iter_window_items(axis=axis, **kw))
+        if route.endswith('items'):
+            pairs = items
+        elif route.endswith('values'):
+            pairs = list(zip([k for k, _ in items], f.iter_window(axis=axis, **kw)))
+        else:
+            pairs = list(zip([k for k, _ in items], f.iter_window_array(axis=axis, **kw)))
+        if len(pairs) != len(items):
+            return [{'label': -1, 'lo': -99, 'hi': -99}]
+        pairs = [(k, (w.iloc[:, 0] if axis == 0 else w.iloc[0]) if isinstance(w, sf.Frame) else (w[:, 0] if axis == 0 else w[0])) for k, w in pairs]
     out = []
-    for label, w in s.iter_window_items(size=cs['size'], step=cs['step'], start_shift=cs['start_shift'], label_shift=cs['label_shift'],
-                                        size_increment=cs['size_increment'], window_sized=cs['window_sized']):
-        vals = w.values.tolist()
+    for label, w in pairs:
+        vals = (w.values if hasattr(w, 'values') else np.asarray(w)).tolist()
         out.append({'label': int(label[1:]), 'lo': vals[0] if vals else 0, 'hi': (vals[-1] + 1) if vals else 0})
         if vals and vals != list(range(vals[0], vals[-1] + 1)):
             out[-1]['lo'] = -99  # not contiguous
@@ -161,8 +187,11 @@ def gen_group(rng):
     return {'op': 'group', 'kind': 'frame', 'f': f, 'axis': 1, 'by': ['cols', [rng.choice(f['index'])]]}, C.rand_layout(rng, f)
 
 
+WINDOW_ROUTES = ['series_items', 'series_items', 'series_values', 'series_array', 'frame_axis0_items', 'frame_axis0_values', 'frame_axis0_array', 'frame_axis1_items', 'frame_axis1_values', 'frame_axis1_array', 'framego_axis0_values']
+
+
 def gen_window(rng):
-    return {'op': 'window', 'n': rng.choice([0, 1, 2, 3, 5, 7, 12]), 'size': rng.randint(1, 4), 'step': rng.randint(1, 4),
+    return {'route': rng.choice(WINDOW_ROUTES), 'op': 'window', 'n': rng.choice([0, 1, 2, 3, 5, 7, 12]), 'size': rng.randint(1, 4), 'step': rng.randint(1, 4),
             'start_shift': rng.randint(-3, 3), 'label_shift': rng.randint(-3, 3), 'size_increment': rng.choice([0, 0, 1, -1, 2]),
             'window_sized': rng.random() < 0.6}
 
